@@ -106,6 +106,15 @@ class SqlalchemyRender:
             raise NotImplementedError(f'Multiple alias {alias.parts}')
         return alias.parts[0]
 
+    def truth_value(self, col):
+        # sqlalchemy prints a boolean-typed operand of AND / OR / NOT / ON / HAVING as "x = 1" / "x = 0" when the
+        # dialect has no native boolean type: a comparison with 1 instead of the truth test of the statement
+        # (they differ for x = 2). In sqlite and mysql every number is a truth value: there the operand is not marked
+        # as boolean and is printed as it was written
+        if self.dialect.name in ('sqlite', 'mysql') and isinstance(col.type, sa.types.Boolean):
+            col.type = sa.types.NullType()
+        return col
+
     def to_expression(self, t):
 
         # simple type
@@ -155,7 +164,7 @@ class SqlalchemyRender:
                 alias = self.get_alias(t.alias)
                 col = col.label(alias)
         elif isinstance(t, ast.Function):
-            fnc = self.to_function(t)
+            fnc = self.truth_value(self.to_function(t))
             if t.alias:
                 alias = self.get_alias(t.alias)
             else:
@@ -323,7 +332,7 @@ class SqlalchemyRender:
                     type = type(*t.precision)
                 except TypeError as e:
                     raise NotImplementedError(f'Type {t.type_name}{tuple(t.precision)}: {e}')
-            col = sa.cast(arg, type)
+            col = self.truth_value(sa.cast(arg, type))
 
             if t.alias:
                 alias = self.get_alias(t.alias)
@@ -348,7 +357,7 @@ class SqlalchemyRender:
             sub_stmt = self.prepare_select(t.query)
             col = ~sub_stmt.exists()
         elif isinstance(t, ast.Case):
-            col = self.prepare_case(t)
+            col = self.truth_value(self.prepare_case(t))
             if t.alias:
                 col = col.label(self.get_alias(t.alias))
         else:
